@@ -27,7 +27,8 @@ vars == <<stage, sc, idx>>
 
 EnumUnits == { <<>>, X1("m"), X1("c:m"), X1("k:m"), X1("s"), X1("m:s"), X1("g"), X1("k:g"), X1("%"),
                << [u |-> "m", e |-> ROne], [u |-> "s", e |-> RInt(-1)] >>, XP("c:m", 2),
-               XP("s", -1), X1("rad") }          \* inverse dimension of s; the unit a bare number converts to
+               XP("s", -1), X1("rad"),           \* inverse dimension of s; the unit a bare number converts to
+               << [u |-> "%", e |-> ROne], [u |-> "k:m", e |-> ROne] >> }   \* a dimensionless named unit that stays when km cancels
 Vals == {RInt(-2), RZero, ROne, RInt(3)}
 Dummy == [v |-> ROne, ex |-> <<>>]
 
